@@ -125,6 +125,62 @@ fn op_table_case(k: u64, n_ops: usize, sample: bool) -> CaseResult {
         .desc(if sample { Some(case()) } else { None }))
 }
 
+// ---------------------------------------------------------------- (1b) operator chains inside the constructs that take a term
+
+/// (context with a hole X, whether the hole admits a top-level comma)
+const CONTEXTS: &[(&str, bool)] = &[
+    ("{a: X, b: .z}", false),
+    ("{b: .z, a: X}", false),
+    ("{a: X, \"b\"}", false),
+    ("{a: X, $g, c: 1}", false),
+    ("{a: X, \"k\": 2, $__loc__}", false),
+    ("{(X): 1, b: .z}", true),
+    ("[X]", true),
+    ("f(X; .z)", true),
+    ("f(.z; X)", true),
+    ("if X then .y else .z end", true),
+    ("if .y then X else .z end", true),
+    ("if .y then .z else X end", true),
+    ("if .y then .z elif X then 1 else 2 end", true),
+    (".[X]", true),
+    (".[X:.z]", true),
+    (".[.z:X]", true),
+    ("reduce .y as $v (X; .z)", true),
+    ("reduce .y as $v (.z; X)", true),
+    ("foreach .y as $v (X; .z; .w)", true),
+    ("foreach .y as $v (.w; .z; X)", true),
+    ("\"s\\(X)t\"", true),
+    ("def f: X; .z", true),
+    ("def f(g): g; f(X)", true),
+    ("label $l | X", true),
+    (".z as [$p, {a: $q}] | X", true),
+    ("try (X) catch (X)", true),
+    (".y | {a: X} | .a", false),
+];
+
+/// A chain of two operators placed unparenthesised into every construct that takes a term must parse
+/// to what the same construct gives for the parenthesised, explicitly grouped chain.
+fn embedding_case(k: u64, sample: bool) -> CaseResult {
+    let n = OPS.len() as u64;
+    let (ci, chain) = ((k / (n * n)) as usize, k % (n * n));
+    let ops = vec![(chain / n) as usize, (chain % n) as usize];
+    let (ctx, comma_ok) = CONTEXTS[ci];
+    if !comma_ok && ops.iter().any(|o| OPS[*o].0 == ",") {
+        return Ok(CaseOk::trivial().class("comma-not-admitted-here"));
+    }
+    let operands: Vec<String> = [".a", ".b", ".c"].iter().map(|s| s.to_string()).collect();
+    let minimal = format!("{} {} {} {} {}", operands[0], OPS[ops[0]].0, operands[1], OPS[ops[1]].0, operands[2]);
+    let grouped = group(&operands, &ops);
+    let (t1, t2) = (ctx.replace('X', &minimal), ctx.replace('X', &format!("({grouped})")));
+    let case = || json!({"text": t1, "explicitly_grouped": t2});
+    let p2 = parse_dbg(&t2).ok_or_else(|| CaseFail::new("harness-grouped-text-rejected", "the parenthesised text must parse", case()))?;
+    let p1 = parse_dbg(&t1).ok_or_else(|| CaseFail::new("term-rejected-inside-construct", format!("`{t1}` does not parse although `{t2}` does"), case()))?;
+    if p1 != p2 {
+        return Err(CaseFail::new("term-inside-construct-parsed-differently", format!("`{t1}` does not parse like `{t2}`: {p1}"), case()));
+    }
+    Ok(CaseOk::new(true, k).class(if ops.iter().any(|o| OPS[*o].1 == 2) { "with-binding" } else { "without-binding" }).class(if ctx.starts_with('{') || ctx.contains("{a:") { "object-value-or-key" } else { "other-construct" }).desc(if sample { Some(case()) } else { None }))
+}
+
 // ---------------------------------------------------------------- (2) random trees, independent printer
 
 #[derive(Clone, Debug)]
@@ -561,7 +617,7 @@ impl<'a, 'b> Printer<'a, 'b> {
     }
 }
 
-const TRIVIA: &[&str] = &[" ", "  ", "\t", "\n", "\r\n", " \n ", "# comment\n", "#\n", " # a \\\\\n", "# continued \\\n still comment \\\\\\\n and this\n", "#x\r\n", "\n\n", " #\\\\\\\\\n"];
+const TRIVIA: &[&str] = &[" ", "  ", "\t", "\n", "\r\n", " \n ", "# comment\n", "#\n", " # a \\\\\n", "# continued \\\n still comment \\\\\\\n and this\n", "#x\r\n", "\n\n", " #\\\\\\\\\n", "# not continued: blank after the backslash \\ \n", "# tab after it \\\t\n", "# three of them \\\\\\ \r\n", "# C:\\tmp\\ \n"];
 
 /// join tokens with random trivia (at least a blank where two word-like tokens meet)
 fn join(tokens: &[String], src: &mut Src, rich: bool) -> String {
@@ -809,6 +865,7 @@ pub fn run(mut rep: Report) -> ! {
     let n = OPS.len() as u64;
     rep.exhaustive("operator-pairs", n * n, |k, s| op_table_case(k, 2, s));
     rep.exhaustive("operator-triples", n * n * n, |k, s| op_table_case(k, 3, s));
+    rep.exhaustive("operator-chains-inside-constructs", CONTEXTS.len() as u64 * n * n, embedding_case);
     let total = SHORTHANDS.len() as u64 * (F_POOL.len() * F_POOL.len() * INPUTS.len()) as u64;
     rep.exhaustive("shorthands", total, shorthand_case);
     rep.fixed("invalid-texts", INVALID.len(), negative_case);
